@@ -24,6 +24,23 @@ def repo():
               script=script)
 
 
+def sym_sec33(B, name):
+    """a valid 33-byte compressed SEC encoding (symbolic: any accepted encoding; concrete: the
+    encoding of a real point derived from the model's value)"""
+    if B.concrete:
+        v = int(B.vals.get(name) or 0) if not isinstance(B.vals.get(name), str) else 0
+        if hasattr(B, "rng") and name not in B.vals:
+            v = B.rng.choice([1, 2, N - 1, B.rng.randrange(1, N)])
+            B.vals[name] = v
+        kk = (v % (N - 1)) + 1
+        pt = U.ecmul(kk)
+        return U.sec(pt, True), pt
+    key = B.bytes(name, 33)
+    ok, pt = U.sec_parse(key)
+    B.assume(ok)
+    return key, pt
+
+
 def sym_parent(B, tag, private=True):
     """an arbitrary parent node object (only what fingerprint()/__repr__ may read)"""
     R = repo()
@@ -33,9 +50,7 @@ def sym_parent(B, tag, private=True):
         cls = R.bip32.PrvKeyNode
     else:
         k = None
-        key = B.bytes(f"{tag}_key", 33)
-        ok, _ = U.sec_parse(key)
-        B.assume(ok)
+        key, _ = sym_sec33(B, f"{tag}_key")
         cls = R.bip32.PubKeyNode
     return B.obj(cls, key=key, chain_code=B.bytes(f"{tag}_cc", 32), depth=B.int(f"{tag}_depth", 0, 255),
                  index=B.int(f"{tag}_index", 0, 2 ** 32), testnet=B.bool(f"{tag}_testnet"), parent=None,
@@ -71,9 +86,7 @@ def sym_prv_node(B, tag="self", with_parent=True, depth_hi=256):
 def sym_pub_node(B, tag="self", with_parent=True, depth_hi=256):
     """a well-formed PubKeyNode: key is a valid 33-byte compressed SEC encoding"""
     R = repo()
-    key = B.bytes(f"{tag}_key", 33)
-    ok, pt = U.sec_parse(key)
-    B.assume(ok)
+    key, pt = sym_sec33(B, f"{tag}_key")
     cc = B.bytes(f"{tag}_cc", 32)
     depth = B.int(f"{tag}_depth", 0, depth_hi)
     index = B.int(f"{tag}_index", 0, 2 ** 32)
